@@ -9,6 +9,7 @@
     C16_utf16_roundtrip    decode16 (encode16 s) = s  for every s
 -/
 import MdwModel.Lemmas.Buffer
+import MdwModel.Model.BufferHistory
 namespace Mdw
 
 /-! ### append laws -/
@@ -115,243 +116,6 @@ theorem C16_locationOfIndex (a : Arr) (i : Nat) (h : a.position + a.sz * i + a.s
   simp [h3, Nat.mul_comm]
   rw [Nat.mul_comm]; exact h3
 
-/-! ### histories -/
-
-inductive Handle where
-  | slot (s : Slot)
-  | arr (a : Arr)
-  deriving Repr
-
-def Handle.ext : Handle → Nat × Nat
-  | .slot s => (s.position, s.size)
-  | .arr a => (a.position, a.arraySize * a.sz)
-
-inductive Op where
-  | alloc (sz : Nat)
-  | allocWithVal (v : Bytes)
-  | setValue (h : Nat) (v : Bytes)
-  | allocArray (n sz : Nat)
-  | allocFromArray (vs : List Bytes) (sz : Nat)
-  | setValueAt (h : Nat) (idx : Nat) (v : Bytes)
-  | writeBytes (bs : Bytes)
-  deriving Repr
-
-structure St where
-  buf : Buf
-  hs : List Handle
-  deriving Repr
-
-/-- One builder operation. `none` = the real code panics or the op is not expressible
-    (wrong handle kind). The second component is the location the operation returns. -/
-def step (st : St) : Op → Option (St × Option Loc)
-  | .alloc sz => let (b, s) := Slot.alloc st.buf sz; some (⟨b, st.hs ++ [.slot s]⟩, some s.location)
-  | .allocWithVal v => match Slot.allocWithVal st.buf v with
-    | some (b, s) => some (⟨b, st.hs ++ [.slot s]⟩, some s.location)
-    | none => none
-  | .setValue h v => match st.hs[h]? with
-    | some (.slot s) => (s.setValue st.buf v).map (fun b => (⟨b, st.hs⟩, none))
-    | _ => none
-  | .allocArray n sz => let (b, a) := Arr.allocArray st.buf n sz
-    some (⟨b, st.hs ++ [.arr a]⟩, some a.location)
-  | .allocFromArray vs sz => match Arr.allocFromArray st.buf vs sz with
-    | some (b, a) => some (⟨b, st.hs ++ [.arr a]⟩, some a.location)
-    | none => none
-  | .setValueAt h idx v => match st.hs[h]? with
-    | some (.arr a) => (a.setValueAt st.buf v idx).map (fun b => (⟨b, st.hs⟩, none))
-    | _ => none
-  | .writeBytes bs => let (b, a) := Arr.writeBytes st.buf bs
-    some (⟨b, st.hs ++ [.arr a]⟩, some a.location)
-
-/-- What a caller must respect (and what every writer in the crate is meant to respect):
-    the image stays below 4 GiB, a slot is filled with a value of its own type, an array
-    element index is inside the array. -/
-def OpOk (st : St) : Op → Prop
-  | .alloc sz => st.buf.len + sz < 2 ^ 32
-  | .allocWithVal v => st.buf.len + v.length < 2 ^ 32
-  | .setValue h v => ∃ s, st.hs[h]? = some (.slot s) ∧ v.length = s.size
-  | .allocArray n sz => st.buf.len + n * sz < 2 ^ 32
-  | .allocFromArray vs sz => (∀ v ∈ vs, v.length = sz) ∧ st.buf.len + vs.length * sz < 2 ^ 32
-  | .setValueAt h idx v => ∃ a, st.hs[h]? = some (.arr a) ∧ v.length = a.sz ∧ idx < a.arraySize
-  | .writeBytes bs => st.buf.len + bs.length < 2 ^ 32
-
-/-- The effect a step may have on the image. -/
-inductive Effect (st st' : St) (r : Option Loc) : Prop where
-  /-- appended `new` at the old end; returned exactly (old end, |new|); one new handle whose
-      extent is that range. -/
-  | append (new : Bytes) (h : Handle)
-      (hbuf : st'.buf.inner = st.buf.inner ++ new)
-      (hret : r = some ⟨new.length, st.buf.len⟩)
-      (hhs : st'.hs = st.hs ++ [h])
-      (hext : h.ext = (st.buf.len, new.length))
-  /-- patched `v` at `p`, inside the extent of an existing handle `k`; nothing else changes. -/
-  | patch (k p : Nat) (v : Bytes) (h : Handle)
-      (hk : st.hs[k]? = some h)
-      (hin : h.ext.1 ≤ p ∧ p + v.length ≤ h.ext.1 + h.ext.2)
-      (hbuf : st'.buf.inner = st.buf.inner.take p ++ v ++ st.buf.inner.drop (p + v.length))
-      (hhs : st'.hs = st.hs)
-      (hret : r = none)
-
-/-- Invariant: every handle's extent lies inside the buffer. -/
-def Inv (st : St) : Prop := ∀ h ∈ st.hs, h.ext.1 + h.ext.2 ≤ st.buf.len
-
-theorem flatten_length_of_all (vs : List Bytes) (sz : Nat) (hv : ∀ v ∈ vs, v.length = sz) :
-    vs.flatten.length = vs.length * sz := by
-  induction vs with
-  | nil => simp
-  | cons d ds ihd =>
-    have := hv d (by simp)
-    have := ihd (fun x hx => hv x (by simp [hx]))
-    simp [Nat.add_mul, *]; omega
-
-/-- Concrete result of each appending operation under `OpOk`. -/
-theorem step_append_eq (st : St) (op : Op) (hok : OpOk st op) :
-    (∀ sz, op = .alloc sz → step st op =
-        some (⟨⟨st.buf.inner ++ zeros sz⟩, st.hs ++ [.slot ⟨st.buf.len, sz⟩]⟩, some ⟨sz, st.buf.len⟩)) ∧
-    (∀ v, op = .allocWithVal v → step st op =
-        some (⟨⟨st.buf.inner ++ v⟩, st.hs ++ [.slot ⟨st.buf.len, v.length⟩]⟩, some ⟨v.length, st.buf.len⟩)) ∧
-    (∀ n sz, op = .allocArray n sz → step st op =
-        some (⟨⟨st.buf.inner ++ zeros (n*sz)⟩, st.hs ++ [.arr ⟨st.buf.len, n, sz⟩]⟩, some ⟨n*sz, st.buf.len⟩)) ∧
-    (∀ vs sz, op = .allocFromArray vs sz → step st op =
-        some (⟨⟨st.buf.inner ++ vs.flatten⟩, st.hs ++ [.arr ⟨st.buf.len, vs.length, sz⟩]⟩,
-              some ⟨vs.length*sz, st.buf.len⟩)) ∧
-    (∀ bs, op = .writeBytes bs → step st op =
-        some (⟨⟨st.buf.inner ++ bs⟩, st.hs ++ [.arr ⟨st.buf.len, bs.length, 1⟩]⟩, some ⟨bs.length, st.buf.len⟩)) := by
-  refine ⟨?_, ?_, ?_, ?_, ?_⟩
-  · intro sz h; subst h
-    simp only [OpOk] at hok
-    have e1 : asU32 st.buf.inner.length = st.buf.len := asU32_of_lt (by simp [Buf.len] at hok ⊢; omega)
-    have e2 : asU32 sz = sz := asU32_of_lt (by omega)
-    simp [step, Slot.alloc, Buf.reserve, Slot.location, e1, e2]
-  · intro v h; subst h
-    simp only [OpOk] at hok
-    have e1 : asU32 st.buf.inner.length = st.buf.len := asU32_of_lt (by simp [Buf.len] at hok ⊢; omega)
-    have e2 : asU32 v.length = v.length := asU32_of_lt (by omega)
-    simp [step, Slot.allocWithVal, Buf.write_spec, Buf.position, Slot.location, e1, e2]
-  · intro n sz h; subst h
-    simp only [OpOk] at hok
-    have e1 : asU32 st.buf.inner.length = st.buf.len := asU32_of_lt (by simp [Buf.len] at hok ⊢; omega)
-    have e2 : asU32 (n*sz) = n*sz := asU32_of_lt (by omega)
-    simp [step, Arr.allocArray, Buf.reserve, Arr.location, e1, e2]
-  · intro vs sz h; subst h
-    simp only [OpOk] at hok
-    obtain ⟨hv, hb⟩ := hok
-    have e1 : asU32 st.buf.inner.length = st.buf.len := asU32_of_lt (by simp [Buf.len] at hb ⊢; omega)
-    have e2 : asU32 (vs.length*sz) = vs.length*sz := asU32_of_lt (by omega)
-    have h := Arr.fillFrom_spec st.buf.inner sz [] vs [] (zeros (vs.length * sz))
-      (by simp) hv (by simp [zeros])
-    simp at h
-    simp [step, Arr.allocFromArray, Buf.reserve, h, Arr.location, e1, e2]
-  · intro bs h; subst h
-    simp only [OpOk] at hok
-    have e1 : asU32 st.buf.inner.length = st.buf.len := asU32_of_lt (by simp [Buf.len] at hok ⊢; omega)
-    have e2 : asU32 bs.length = bs.length := asU32_of_lt (by omega)
-    simp [step, Arr.writeBytes, Buf.writeAll, Buf.position, Arr.location, e1, e2]
-
-theorem step_effect (st : St) (op : Op) (hinv : Inv st) (hok : OpOk st op) :
-    ∃ st' r, step st op = some (st', r) ∧ Effect st st' r ∧ Inv st' := by
-  have grow : ∀ (st' : St) (new : Bytes) (h : Handle), st'.buf.inner = st.buf.inner ++ new →
-      st'.hs = st.hs ++ [h] → h.ext = (st.buf.len, new.length) → Inv st' := by
-    intro st' new h hb hh he x hx
-    rw [hh] at hx
-    simp only [List.mem_append, List.mem_singleton] at hx
-    rcases hx with hx | hx
-    · have := hinv x hx; simp [Buf.len, hb] at this ⊢; omega
-    · subst hx; simp [he, Buf.len, hb]
-  obtain ⟨ha, hav, haa, hafa, hwb⟩ := step_append_eq st op hok
-  cases op with
-  | alloc sz =>
-    refine ⟨_, _, ha sz rfl, ?_, ?_⟩
-    · exact .append (zeros sz) _ rfl (by simp [zeros]) rfl (by simp [Handle.ext, zeros])
-    · exact grow _ (zeros sz) _ rfl rfl (by simp [Handle.ext, zeros])
-  | allocWithVal v =>
-    refine ⟨_, _, hav v rfl, ?_, ?_⟩
-    · exact .append v _ rfl rfl rfl (by simp [Handle.ext])
-    · exact grow _ v _ rfl rfl (by simp [Handle.ext])
-  | allocArray n sz =>
-    refine ⟨_, _, haa n sz rfl, ?_, ?_⟩
-    · exact .append (zeros (n*sz)) _ rfl (by simp [zeros]) rfl (by simp [Handle.ext, zeros])
-    · exact grow _ (zeros (n*sz)) _ rfl rfl (by simp [Handle.ext, zeros])
-  | allocFromArray vs sz =>
-    have hfl := flatten_length_of_all vs sz hok.1
-    refine ⟨_, _, hafa vs sz rfl, ?_, ?_⟩
-    · exact .append vs.flatten _ rfl (by simp [hfl]) rfl (by simp [Handle.ext, hfl])
-    · exact grow _ vs.flatten _ rfl rfl (by simp [Handle.ext, hfl])
-  | writeBytes bs =>
-    refine ⟨_, _, hwb bs rfl, ?_, ?_⟩
-    · exact .append bs _ rfl rfl rfl (by simp [Handle.ext])
-    · exact grow _ bs _ rfl rfl (by simp [Handle.ext])
-  | setValue h v =>
-    obtain ⟨s, hs, hv⟩ := hok
-    have hin := hinv (.slot s) (List.mem_of_getElem? hs)
-    simp only [Handle.ext] at hin
-    obtain ⟨b', h0, hl, hb', _, _⟩ := C16_setValue_frame st.buf s v hv hin
-    refine ⟨⟨b', st.hs⟩, none, by simp [step, hs, h0], ?_, ?_⟩
-    · exact .patch h s.position v (.slot s) hs (by simp [Handle.ext]; omega) hb' rfl rfl
-    · intro x hx; have := hinv x hx; simp only [hl]; exact this
-  | setValueAt h idx v =>
-    obtain ⟨a, hs, hv, hi⟩ := hok
-    have hin := hinv (.arr a) (List.mem_of_getElem? hs)
-    simp only [Handle.ext] at hin
-    obtain ⟨b', h0, hl, hb', _, _⟩ := C16_setValueAt_frame st.buf a v idx hv hi hin
-    have hle : (idx+1) * a.sz ≤ a.arraySize * a.sz := Nat.mul_le_mul_right _ hi
-    have hexp : (idx+1) * a.sz = idx * a.sz + a.sz := by rw [Nat.add_mul]; simp
-    refine ⟨⟨b', st.hs⟩, none, by simp [step, hs, h0], ?_, ?_⟩
-    · exact .patch h (a.position + idx * a.sz) v (.arr a) hs (by simp [Handle.ext]; omega) hb' rfl rfl
-    · intro x hx; have := hinv x hx; simp only [hl]; exact this
-
-/-- A history, valid op by op w.r.t. the state it is applied to, and the chain of states. -/
-inductive Run : St → List Op → St → Prop where
-  | nil (st) : Run st [] st
-  | cons {st st' st'' op ops r} : OpOk st op → step st op = some (st', r) → Effect st st' r →
-      Run st' ops st'' → Run st (op :: ops) st''
-
-/-- Validity of a whole history (each op acceptable in the state reached so far). -/
-def HistOk : St → List Op → Prop
-  | _, [] => True
-  | st, op :: ops => OpOk st op ∧ ∀ st' r, step st op = some (st', r) → HistOk st' ops
-
-/-- **C16 (histories).** For every history of reserve / write / fill-later / array operations
-    that keeps the image below 4 GiB and fills slots with values of their own type and array
-    elements inside their array, no operation panics and every operation is either an append at
-    the current end returning exactly (old end, size) or a patch confined to the extent of one
-    previously returned handle. -/
-theorem C16_history (st : St) (ops : List Op) (hinv : Inv st) (hok : HistOk st ops) :
-    ∃ st', Run st ops st' ∧ Inv st' := by
-  induction ops generalizing st with
-  | nil => exact ⟨st, .nil st, hinv⟩
-  | cons op ops ih =>
-    obtain ⟨ho, hrest⟩ := hok
-    obtain ⟨st1, r, hs, he, hi⟩ := step_effect st op hinv ho
-    obtain ⟨st2, hr, hi2⟩ := ih st1 hi (hrest st1 r hs)
-    exact ⟨st2, .cons ho hs he hr, hi2⟩
-
-/-- Consequence: along any valid history earlier bytes never move: the image only grows and
-    every byte outside the one patched range `[p, p+n)` (empty for an append, inside one existing
-    handle's extent for a patch) keeps its value.  Stated for one step (a run is a chain). -/
-theorem C16_effect_preserves (st st' : St) (r : Option Loc) (hinv : Inv st) (e : Effect st st' r) :
-    st.buf.len ≤ st'.buf.len ∧
-    ∃ p n, (∀ i, i < st.buf.len → (i < p ∨ p + n ≤ i) → st'.buf.inner[i]? = st.buf.inner[i]?) ∧
-      (n = 0 ∨ ∃ (k : Nat) (h : Handle), st.hs[k]? = some h ∧ h.ext.1 ≤ p ∧ p + n ≤ h.ext.1 + h.ext.2) := by
-  cases e with
-  | append new h hbuf hret hhs hext =>
-    refine ⟨by simp [Buf.len, hbuf], 0, 0, ?_, Or.inl rfl⟩
-    intro i hi _
-    simp [Buf.len] at hi
-    simp [hbuf, List.getElem?_append_left hi]
-  | patch k p v h hk hin hbuf hhs hret =>
-    have hb := hinv h (List.mem_of_getElem? hk)
-    have hle : p + v.length ≤ st.buf.inner.length := by simp [Buf.len] at hb; omega
-    refine ⟨by simp [Buf.len, hbuf]; omega, p, v.length, ?_, Or.inr ⟨k, h, hk, hin⟩⟩
-    intro i _ hi
-    rw [hbuf]
-    exact Buf.patch_get_outside _ _ _ _ hle hi
-
-/-- Non-vacuity: a concrete mixed history satisfies the hypotheses. -/
-example : HistOk ⟨Buf.empty, []⟩
-    [.alloc 4, .allocArray 2 3, .setValueAt 1 1 [1,2,3], .setValue 0 [9,9,9,9], .writeBytes [7]] := by
-  simp [HistOk, OpOk, step, Slot.alloc, Arr.allocArray, Buf.reserve, Buf.empty, Buf.len, asU32,
-    Slot.setValue, Arr.setValueAt, Buf.writeAt, zeros]
-
 /-! ### strings -/
 
 theorem char_valid_nat (c : Char) :
@@ -405,6 +169,13 @@ theorem C16_utf16_roundtrip (s : List Char) :
       simp [encode16]
     rw [this, decode16_scalar_append, ih]
     simp
+
+theorem units16LE_length (us : List Nat) : (units16LE us).length = us.length * 2 := by
+  induction us with
+  | nil => simp [units16LE]
+  | cons d ds ihd =>
+    have : units16LE (d :: ds) = le 2 d ++ units16LE ds := by simp [units16LE]
+    rw [this, List.length_append, ihd, le_length, List.length_cons]; omega
 
 theorem writeString_go_spec (arr : Arr) (pre : Bytes) (done rest : List Nat) (tail : Bytes)
     (hsz : arr.sz = 2) (hpos : arr.position = pre.length)
@@ -476,5 +247,212 @@ theorem C16_writeString (b : Buf) (units : List Nat)
 
 example : writeString Buf.empty (encode16 ['a', '😀']) =
     .ok (⟨[6,0,0,0, 0x61,0, 0x3D,0xD8, 0x00,0xDE]⟩, ⟨10, 0⟩) := by decide
+
+/-! ### histories -/
+
+/-- What a caller must respect (and what every writer in the crate is meant to respect):
+    the image stays below 4 GiB, a slot is filled with a value of its own type, an array
+    element index is inside the array. -/
+def OpOk (st : St) : Op → Prop
+  | .alloc sz => st.buf.len + sz < 2 ^ 32
+  | .allocWithVal v => st.buf.len + v.length < 2 ^ 32
+  | .setValue h v => ∃ s, st.hs[h]? = some (.slot s) ∧ v.length = s.size
+  | .allocArray n sz => st.buf.len + n * sz < 2 ^ 32
+  | .allocFromArray vs sz => (∀ v ∈ vs, v.length = sz) ∧ st.buf.len + vs.length * sz < 2 ^ 32
+  | .setValueAt h idx v => ∃ a, st.hs[h]? = some (.arr a) ∧ v.length = a.sz ∧ idx < a.arraySize
+  | .writeBytes bs => st.buf.len + bs.length < 2 ^ 32
+  | .writeString units => st.buf.len + 4 + 2 * units.length < 2 ^ 32
+
+/-- The effect a step may have on the image. -/
+inductive Effect (st st' : St) (r : Option Loc) : Prop where
+  /-- appended `new` at the old end; returned exactly (old end, |new|); one new handle whose
+      extent is that range. -/
+  | append (new : Bytes) (h : Handle)
+      (hbuf : st'.buf.inner = st.buf.inner ++ new)
+      (hret : r = some ⟨new.length, st.buf.len⟩)
+      (hhs : st'.hs = st.hs ++ [h])
+      (hext : h.ext = (st.buf.len, new.length))
+  /-- patched `v` at `p`, inside the extent of an existing handle `k`; nothing else changes. -/
+  | patch (k p : Nat) (v : Bytes) (h : Handle)
+      (hk : st.hs[k]? = some h)
+      (hin : h.ext.1 ≤ p ∧ p + v.length ≤ h.ext.1 + h.ext.2)
+      (hbuf : st'.buf.inner = st.buf.inner.take p ++ v ++ st.buf.inner.drop (p + v.length))
+      (hhs : st'.hs = st.hs)
+      (hret : r = none)
+
+/-- Invariant: every handle's extent lies inside the buffer. -/
+def Inv (st : St) : Prop := ∀ h ∈ st.hs, h.ext.1 + h.ext.2 ≤ st.buf.len
+
+theorem flatten_length_of_all (vs : List Bytes) (sz : Nat) (hv : ∀ v ∈ vs, v.length = sz) :
+    vs.flatten.length = vs.length * sz := by
+  induction vs with
+  | nil => simp
+  | cons d ds ihd =>
+    have := hv d (by simp)
+    have := ihd (fun x hx => hv x (by simp [hx]))
+    simp [Nat.add_mul, *]; omega
+
+/-- Concrete result of each appending operation under `OpOk`. -/
+theorem step_append_eq (st : St) (op : Op) (hok : OpOk st op) :
+    (∀ sz, op = .alloc sz → step st op =
+        some (⟨⟨st.buf.inner ++ zeros sz⟩, st.hs ++ [.slot ⟨st.buf.len, sz⟩]⟩, some ⟨sz, st.buf.len⟩)) ∧
+    (∀ v, op = .allocWithVal v → step st op =
+        some (⟨⟨st.buf.inner ++ v⟩, st.hs ++ [.slot ⟨st.buf.len, v.length⟩]⟩, some ⟨v.length, st.buf.len⟩)) ∧
+    (∀ n sz, op = .allocArray n sz → step st op =
+        some (⟨⟨st.buf.inner ++ zeros (n*sz)⟩, st.hs ++ [.arr ⟨st.buf.len, n, sz⟩]⟩, some ⟨n*sz, st.buf.len⟩)) ∧
+    (∀ vs sz, op = .allocFromArray vs sz → step st op =
+        some (⟨⟨st.buf.inner ++ vs.flatten⟩, st.hs ++ [.arr ⟨st.buf.len, vs.length, sz⟩]⟩,
+              some ⟨vs.length*sz, st.buf.len⟩)) ∧
+    (∀ bs, op = .writeBytes bs → step st op =
+        some (⟨⟨st.buf.inner ++ bs⟩, st.hs ++ [.arr ⟨st.buf.len, bs.length, 1⟩]⟩, some ⟨bs.length, st.buf.len⟩)) ∧
+    (∀ us, op = .writeString us → step st op =
+        some (⟨⟨st.buf.inner ++ le 4 (2 * us.length) ++ units16LE us⟩,
+               st.hs ++ [.arr ⟨st.buf.len, 4 + 2 * us.length, 1⟩]⟩, some ⟨4 + 2 * us.length, st.buf.len⟩)) := by
+  refine ⟨?_, ?_, ?_, ?_, ?_, ?_⟩
+  · intro sz h; subst h
+    simp only [OpOk] at hok
+    have e1 : asU32 st.buf.inner.length = st.buf.len := asU32_of_lt (by simp [Buf.len] at hok ⊢; omega)
+    have e2 : asU32 sz = sz := asU32_of_lt (by omega)
+    simp [step, Slot.alloc, Buf.reserve, Slot.location, e1, e2]
+  · intro v h; subst h
+    simp only [OpOk] at hok
+    have e1 : asU32 st.buf.inner.length = st.buf.len := asU32_of_lt (by simp [Buf.len] at hok ⊢; omega)
+    have e2 : asU32 v.length = v.length := asU32_of_lt (by omega)
+    simp [step, Slot.allocWithVal, Buf.write_spec, Buf.position, Slot.location, e1, e2]
+  · intro n sz h; subst h
+    simp only [OpOk] at hok
+    have e1 : asU32 st.buf.inner.length = st.buf.len := asU32_of_lt (by simp [Buf.len] at hok ⊢; omega)
+    have e2 : asU32 (n*sz) = n*sz := asU32_of_lt (by omega)
+    simp [step, Arr.allocArray, Buf.reserve, Arr.location, e1, e2]
+  · intro vs sz h; subst h
+    simp only [OpOk] at hok
+    obtain ⟨hv, hb⟩ := hok
+    have e1 : asU32 st.buf.inner.length = st.buf.len := asU32_of_lt (by simp [Buf.len] at hb ⊢; omega)
+    have e2 : asU32 (vs.length*sz) = vs.length*sz := asU32_of_lt (by omega)
+    have h := Arr.fillFrom_spec st.buf.inner sz [] vs [] (zeros (vs.length * sz))
+      (by simp) hv (by simp [zeros])
+    simp at h
+    simp [step, Arr.allocFromArray, Buf.reserve, h, Arr.location, e1, e2]
+  · intro bs h; subst h
+    simp only [OpOk] at hok
+    have e1 : asU32 st.buf.inner.length = st.buf.len := asU32_of_lt (by simp [Buf.len] at hok ⊢; omega)
+    have e2 : asU32 bs.length = bs.length := asU32_of_lt (by omega)
+    simp [step, Arr.writeBytes, Buf.writeAll, Buf.position, Arr.location, e1, e2]
+  · intro us h; subst h
+    simp only [OpOk] at hok
+    simp [step, C16_writeString st.buf us hok]
+
+theorem step_effect (st : St) (op : Op) (hinv : Inv st) (hok : OpOk st op) :
+    ∃ st' r, step st op = some (st', r) ∧ Effect st st' r ∧ Inv st' := by
+  have grow : ∀ (st' : St) (new : Bytes) (h : Handle), st'.buf.inner = st.buf.inner ++ new →
+      st'.hs = st.hs ++ [h] → h.ext = (st.buf.len, new.length) → Inv st' := by
+    intro st' new h hb hh he x hx
+    rw [hh] at hx
+    simp only [List.mem_append, List.mem_singleton] at hx
+    rcases hx with hx | hx
+    · have := hinv x hx; simp [Buf.len, hb] at this ⊢; omega
+    · subst hx; simp [he, Buf.len, hb]
+  obtain ⟨ha, hav, haa, hafa, hwb, hws⟩ := step_append_eq st op hok
+  cases op with
+  | alloc sz =>
+    refine ⟨_, _, ha sz rfl, ?_, ?_⟩
+    · exact .append (zeros sz) _ rfl (by simp [zeros]) rfl (by simp [Handle.ext, zeros])
+    · exact grow _ (zeros sz) _ rfl rfl (by simp [Handle.ext, zeros])
+  | allocWithVal v =>
+    refine ⟨_, _, hav v rfl, ?_, ?_⟩
+    · exact .append v _ rfl rfl rfl (by simp [Handle.ext])
+    · exact grow _ v _ rfl rfl (by simp [Handle.ext])
+  | allocArray n sz =>
+    refine ⟨_, _, haa n sz rfl, ?_, ?_⟩
+    · exact .append (zeros (n*sz)) _ rfl (by simp [zeros]) rfl (by simp [Handle.ext, zeros])
+    · exact grow _ (zeros (n*sz)) _ rfl rfl (by simp [Handle.ext, zeros])
+  | allocFromArray vs sz =>
+    have hfl := flatten_length_of_all vs sz hok.1
+    refine ⟨_, _, hafa vs sz rfl, ?_, ?_⟩
+    · exact .append vs.flatten _ rfl (by simp [hfl]) rfl (by simp [Handle.ext, hfl])
+    · exact grow _ vs.flatten _ rfl rfl (by simp [Handle.ext, hfl])
+  | writeBytes bs =>
+    refine ⟨_, _, hwb bs rfl, ?_, ?_⟩
+    · exact .append bs _ rfl rfl rfl (by simp [Handle.ext])
+    · exact grow _ bs _ rfl rfl (by simp [Handle.ext])
+  | writeString us =>
+    have hl : (le 4 (2 * us.length) ++ units16LE us).length = 4 + 2 * us.length := by
+      rw [List.length_append, units16LE_length, le_length]; omega
+    refine ⟨_, _, hws us rfl, ?_, ?_⟩
+    · exact .append (le 4 (2 * us.length) ++ units16LE us) _ (by simp [List.append_assoc])
+        (by rw [hl]) rfl (by simp only [Handle.ext, hl]; simp)
+    · exact grow _ (le 4 (2 * us.length) ++ units16LE us) _ (by simp [List.append_assoc]) rfl
+        (by simp only [Handle.ext, hl]; simp)
+  | setValue h v =>
+    obtain ⟨s, hs, hv⟩ := hok
+    have hin := hinv (.slot s) (List.mem_of_getElem? hs)
+    simp only [Handle.ext] at hin
+    obtain ⟨b', h0, hl, hb', _, _⟩ := C16_setValue_frame st.buf s v hv hin
+    refine ⟨⟨b', st.hs⟩, none, by simp [step, hs, h0], ?_, ?_⟩
+    · exact .patch h s.position v (.slot s) hs (by simp [Handle.ext]; omega) hb' rfl rfl
+    · intro x hx; have := hinv x hx; simp only [hl]; exact this
+  | setValueAt h idx v =>
+    obtain ⟨a, hs, hv, hi⟩ := hok
+    have hin := hinv (.arr a) (List.mem_of_getElem? hs)
+    simp only [Handle.ext] at hin
+    obtain ⟨b', h0, hl, hb', _, _⟩ := C16_setValueAt_frame st.buf a v idx hv hi hin
+    have hle : (idx+1) * a.sz ≤ a.arraySize * a.sz := Nat.mul_le_mul_right _ hi
+    have hexp : (idx+1) * a.sz = idx * a.sz + a.sz := by rw [Nat.add_mul]; simp
+    refine ⟨⟨b', st.hs⟩, none, by simp [step, hs, h0], ?_, ?_⟩
+    · exact .patch h (a.position + idx * a.sz) v (.arr a) hs (by simp [Handle.ext]; omega) hb' rfl rfl
+    · intro x hx; have := hinv x hx; simp only [hl]; exact this
+
+/-- A history, valid op by op w.r.t. the state it is applied to, and the chain of states. -/
+inductive Run : St → List Op → St → Prop where
+  | nil (st) : Run st [] st
+  | cons {st st' st'' op ops r} : OpOk st op → step st op = some (st', r) → Effect st st' r →
+      Run st' ops st'' → Run st (op :: ops) st''
+
+/-- Validity of a whole history (each op acceptable in the state reached so far). -/
+def HistOk : St → List Op → Prop
+  | _, [] => True
+  | st, op :: ops => OpOk st op ∧ ∀ st' r, step st op = some (st', r) → HistOk st' ops
+
+/-- **C16 (histories).** For every history of reserve / write / fill-later / array operations
+    that keeps the image below 4 GiB and fills slots with values of their own type and array
+    elements inside their array, no operation panics and every operation is either an append at
+    the current end returning exactly (old end, size) or a patch confined to the extent of one
+    previously returned handle. -/
+theorem C16_history (st : St) (ops : List Op) (hinv : Inv st) (hok : HistOk st ops) :
+    ∃ st', Run st ops st' ∧ Inv st' := by
+  induction ops generalizing st with
+  | nil => exact ⟨st, .nil st, hinv⟩
+  | cons op ops ih =>
+    obtain ⟨ho, hrest⟩ := hok
+    obtain ⟨st1, r, hs, he, hi⟩ := step_effect st op hinv ho
+    obtain ⟨st2, hr, hi2⟩ := ih st1 hi (hrest st1 r hs)
+    exact ⟨st2, .cons ho hs he hr, hi2⟩
+
+/-- Consequence: along any valid history earlier bytes never move: the image only grows and
+    every byte outside the one patched range `[p, p+n)` (empty for an append, inside one existing
+    handle's extent for a patch) keeps its value.  Stated for one step (a run is a chain). -/
+theorem C16_effect_preserves (st st' : St) (r : Option Loc) (hinv : Inv st) (e : Effect st st' r) :
+    st.buf.len ≤ st'.buf.len ∧
+    ∃ p n, (∀ i, i < st.buf.len → (i < p ∨ p + n ≤ i) → st'.buf.inner[i]? = st.buf.inner[i]?) ∧
+      (n = 0 ∨ ∃ (k : Nat) (h : Handle), st.hs[k]? = some h ∧ h.ext.1 ≤ p ∧ p + n ≤ h.ext.1 + h.ext.2) := by
+  cases e with
+  | append new h hbuf hret hhs hext =>
+    refine ⟨by simp [Buf.len, hbuf], 0, 0, ?_, Or.inl rfl⟩
+    intro i hi _
+    simp [Buf.len] at hi
+    simp [hbuf, List.getElem?_append_left hi]
+  | patch k p v h hk hin hbuf hhs hret =>
+    have hb := hinv h (List.mem_of_getElem? hk)
+    have hle : p + v.length ≤ st.buf.inner.length := by simp [Buf.len] at hb; omega
+    refine ⟨by simp [Buf.len, hbuf]; omega, p, v.length, ?_, Or.inr ⟨k, h, hk, hin⟩⟩
+    intro i _ hi
+    rw [hbuf]
+    exact Buf.patch_get_outside _ _ _ _ hle hi
+
+/-- Non-vacuity: a concrete mixed history satisfies the hypotheses. -/
+example : HistOk ⟨Buf.empty, []⟩
+    [.alloc 4, .allocArray 2 3, .setValueAt 1 1 [1,2,3], .setValue 0 [9,9,9,9], .writeBytes [7]] := by
+  simp [HistOk, OpOk, step, Slot.alloc, Arr.allocArray, Buf.reserve, Buf.empty, Buf.len, asU32,
+    Slot.setValue, Arr.setValueAt, Buf.writeAt, zeros]
 
 end Mdw
